@@ -1274,7 +1274,7 @@ class Container:
         volume = Unit.convert_from_storage(source.volume, 'mL')
         d_x = mass / volume
         mw_x = mass / moles
-        m_x = Unit.convert_from_storage(source.contents.get(solute, 0), 'mol') / (volume / 1000)
+        m_x = Unit.convert_from(solute, source.contents.get(solute, 0), storage_unit(solute), 'mol') / (volume / 1000)
 
         if isinstance(solvent, Container):
             mass = sum(Unit.convert_from(substance, value, storage_unit(substance), 'g') for substance, value in
@@ -1284,7 +1284,7 @@ class Container:
             volume = Unit.convert_from_storage(solvent.volume, 'mL')
             d_y = mass / volume
             mw_y = mass / moles
-            m_y = Unit.convert_from_storage(solvent.contents.get(solute, 0), 'mol') / (volume / 1000)
+            m_y = Unit.convert_from(solute, solvent.contents.get(solute, 0), storage_unit(solute), 'mol') / (volume / 1000)
         else:
             d_y = solvent.density
             mw_y = solvent.mol_weight
